@@ -418,6 +418,53 @@ func (e *Engine) calleeProps(q string) map[string]bool {
 	return m
 }
 
+// callersOf: the functions (qualified names, with or without a contract) whose
+// bodies contain a call of the function q.
+func (e *Engine) callersOf(q string) []string {
+	var out []string
+	for name, fd := range e.funcs {
+		if e.specFns[name] || fd.Body == nil {
+			continue
+		}
+		calls := false
+		ast.Inspect(fd.Body, func(n ast.Node) bool {
+			call, ok := n.(*ast.CallExpr)
+			if !ok || calls {
+				return !calls
+			}
+			var id *ast.Ident
+			switch f := call.Fun.(type) {
+			case *ast.Ident:
+				id = f
+			case *ast.SelectorExpr:
+				id = f.Sel
+			}
+			if id != nil {
+				if fn, ok := e.info.Uses[id].(*types.Func); ok && funcQual(fn) == q {
+					calls = true
+				}
+			}
+			return !calls
+		})
+		// a method value passed as an argument (dsc.lpush as a callback) counts as a use too
+		if !calls {
+			ast.Inspect(fd.Body, func(n ast.Node) bool {
+				if sel, ok := n.(*ast.SelectorExpr); ok {
+					if fn, ok := e.info.Uses[sel.Sel].(*types.Func); ok && funcQual(fn) == q {
+						calls = true
+					}
+				}
+				return !calls
+			})
+		}
+		if calls {
+			out = append(out, name)
+		}
+	}
+	sort.Strings(out)
+	return out
+}
+
 // globalUsers: the functions (qualified names) that mention the package-level
 // variable name.
 func (e *Engine) globalUsers(name string) []string {
